@@ -1170,3 +1170,30 @@ Proof.
   - exact Hs.
   - exact Ho.
 Qed.
+
+(* stop() gathers the tasks the client created - the reader AND the exit watcher: it returns
+   normally only once the process is dead, the reader has ended and the watcher has finished
+   (hook run to completion, stop flag set); while the watcher is waiting or inside a suspended
+   hook, stop() is still waiting. *)
+Theorem stop_returns_iff : forall s,
+  stop_outcome s = StopReturns <->
+  (exists rc, proc s = Exited rc) /\ reader s = REnded /\ xtask s = XDone.
+Proof.
+  intros s. unfold stop_outcome. split.
+  - destruct (proc s) eqn:P; [discriminate|]. destruct (reader s) eqn:R, (xtask s) eqn:X;
+      try discriminate; intros _; repeat split; eauto.
+  - intros ((rc & P) & R & X). rewrite P, R, X. reflexivity.
+Qed.
+
+Corollary stop_waits_for_hook : forall s rc ids,
+  xtask s = XInHook rc ids -> stop_outcome s <> StopReturns.
+Proof. intros s rc ids X H. apply stop_returns_iff in H. destruct H as (_ & _ & H). congruence. Qed.
+
+(* when stop() returns the hook has been entered exactly once and has completed (Inv) *)
+Corollary stop_returned_hook_completed : forall c evs,
+  stop_outcome (run c evs) = StopReturns ->
+  stopped (run c evs) = true /\ exists rc, hook_calls (run c evs) = [(rc, true)].
+Proof.
+  intros c evs H. apply stop_returns_iff in H. destruct H as (_ & _ & X).
+  destruct (inv_run c evs) as (_ & I2 & _). rewrite X in I2. destruct I2 as (St & rc & _ & Hh). eauto.
+Qed.
